@@ -6,6 +6,7 @@
 (* _cim_operations.py:_imethodcall/_methodcall/_iexportcall and the        *)
 (* operation methods, _tupletree.py, _tupleparse.py):                      *)
 (*   send      session.post(); requests/urllib3 exceptions are mapped      *)
+(*   hdr       WBEMServerResponseTime header: float(value) / 1000000        *)
 (*   status    status != 200: 401 -> AuthError, else HTTPError             *)
 (*   ctype     Content-type header check                                   *)
 (*   sax       xml_to_tupletree_sax (expat; UTF-8 / XML char diagnosis)    *)
@@ -24,7 +25,7 @@
 (***************************************************************************)
 EXTENDS RespPipeline
 
-ImplStages == <<"send", "status", "ctype", "sax", "parse", "envelope",
+ImplStages == <<"send", "hdr", "status", "ctype", "sax", "parse", "envelope",
                 "error", "shapechk", "method", "result">>
 
 AllLeaks == {"ErrCodeInt", "IntInf", "NullInArray", "ArraySizeInt",
@@ -37,12 +38,15 @@ AllLeaks == {"ErrCodeInt", "IntInf", "NullInArray", "ArraySizeInt",
              "ParamNamedElem",  \* PARAMVALUE named like a sibling element
              "TypeNameTrail",   \* TYPE="uint8&#10;" passes a $-anchored pattern
              "FirstObjectOnly", \* result list: only object 1 is type-checked
-             "QrcBeforeParams"} \* QueryResultClass extracted before the
+             "QrcBeforeParams", \* QueryResultClass extracted before the
                                 \* response parameters are validated
+             "RespTimeInt"}     \* WBEMServerResponseTime: int(value) / 1000000,
+                                \* only ValueError caught
 (* leaks present in the tree this suite was built against (IntInf was      *)
 (* repaired by "fix: CIM integer types raised OverflowError ..."; the last  *)
-(* two never were in the tree: regression configurations only)             *)
-PinnedLeaks == AllLeaks \ {"IntInf", "FirstObjectOnly", "QrcBeforeParams"}
+(* three never were in the tree: regression configurations only)           *)
+PinnedLeaks == AllLeaks \ {"IntInf", "FirstObjectOnly", "QrcBeforeParams",
+                           "RespTimeInt"}
 
 L(lk, name, leaky, fixed) == IF name \in lk THEN leaky ELSE fixed
 P == {"pass"}
@@ -244,6 +248,7 @@ DefStage(shape, d) ==
   CASE d.k = "t_exc" -> "send"
     [] d.k \in {"s_401", "s_err", "s_cimerror"} -> "status"
     [] d.k = "c_type" -> "ctype"
+    [] d.k = "h_num" -> IF d.ty = "clen" THEN "send" ELSE "hdr"
     [] d.k \in {"u_bad", "x_char", "w_form", "w_enc", "f_bytes"} -> "sax"
     [] d.k = "e_env" ->
          IF d.cls \in {"name_wrong", "name_case", "name_empty"}
@@ -297,6 +302,16 @@ DefOut(lk, shape, d) ==
     [] d.k = "c_type" ->
          IF d.cls \in {"missing", "textxml", "xmlish", "charset"} THEN P
          ELSE {"HeaderParseError"}
+    [] d.k = "h_num" ->
+         (* Content-Length is consumed by requests/urllib3: int() guarded,   *)
+         (* a length the body does not have is a framing fault.              *)
+         (* WBEMServerResponseTime: float(text) takes or rejects (ValueError *)
+         (* caught) every lexeme; leak RespTimeInt: int(text) accepts an     *)
+         (* integer lexeme of up to 4300 digits and int / 1000000 overflows  *)
+         (* above ~315 digits.                                               *)
+         IF d.ty = "clen" THEN P \cup {"ConnectionError"}
+         ELSE L(lk, "RespTimeInt",
+                IF d.cls = "big" THEN P \cup {"OverflowError"} ELSE P, P)
     [] d.k \in {"u_bad", "x_char"} -> {"XMLParseError"}
     [] d.k = "w_form" -> IF d.cls = "declv2" THEN P ELSE {"XMLParseError"}
     [] d.k = "w_enc" ->
